@@ -1,7 +1,111 @@
 import ScVerif.Base.Line
-/-! Driver handler for C19 (stub: replaced by the property's owner). -/
-namespace ScVerif.C19
+import ScVerif.C19.Electric
+/-! Driver handler for C19 (stateful: one electric model per driver process, `reset` starts afresh).
 
-def handle (_toks : List String) : String := "!bad-op"
+```
+reset
+create <mode> <cands>      add <mode>        update <mode> <mask>     delete <id> <0|1>
+setactive <mode>           change <id> <now> clear <now>
+s.create <mode> <cands>    s.update <mode> <mask>   s.delete <id> <0|1>   s.change <id> <now>   s.clear <now>
+  mode  = m:<idhex>:<titlehex>:<0|1>:<start|->        id = i<hex>
+  cands = c<hex>,<hex>,…                               mask = nil | p:<id|title|normal|start_time|bogus>,…
+answer: <OK[=mode]|err:<Code>|panic> modes=[mode;…] active=<mode> normal=<mode|-> changed=<0|1>
+```
+-/
+namespace ScVerif.C19
+open ScVerif.Line
+
+def hexVal? (c : Char) : Option Nat :=
+  if '0' ≤ c ∧ c ≤ '9' then some (c.toNat - '0'.toNat)
+  else if 'a' ≤ c ∧ c ≤ 'f' then some (c.toNat - 'a'.toNat + 10)
+  else none
+
+def hexBytes? : List Char → Option (List UInt8)
+  | [] => some []
+  | [_] => none
+  | a :: b :: rest => do
+    let x ← hexVal? a
+    let y ← hexVal? b
+    let r ← hexBytes? rest
+    pure (UInt8.ofNat (x * 16 + y) :: r)
+
+def unhex? (s : String) : Option String := do
+  let bs ← hexBytes? s.toList
+  String.fromUTF8? (ByteArray.mk bs.toArray)
+
+def hexDigit (n : Nat) : Char := if n < 10 then Char.ofNat (n + 48) else Char.ofNat (n + 87)
+
+def hex (s : String) : String :=
+  String.ofList (s.toUTF8.toList.flatMap fun b => [hexDigit (b.toNat / 16), hexDigit (b.toNat % 16)])
+
+def parseMode? (s : String) : Option Mode :=
+  match s.splitOn ":" with
+  | ["m", i, t, n, st] => do
+    let id ← unhex? i
+    let title ← unhex? t
+    let normal ← parseBool? n
+    let start ← if st = "-" then some none else (parseNat? st).map some
+    pure ⟨id, title, normal, start⟩
+  | _ => none
+
+def showMode (m : Mode) : String :=
+  s!"m:{hex m.id}:{hex m.title}:{if m.normal then "1" else "0"}:{match m.start with | none => "-" | some t => toString t}"
+
+def parseId? (s : String) : Option String :=
+  if s.startsWith "i" then unhex? (s.drop 1).toString else none
+
+def parseCands? (s : String) : Option (List String) :=
+  if s = "c" then some []
+  else if s.startsWith "c" then ((s.drop 1).toString.splitOn ",").mapM unhex? else none
+
+def parseField? (s : String) : Option (Option Field) :=
+  if s = "id" then some (some .id)
+  else if s = "title" then some (some .title)
+  else if s = "normal" then some (some .normal)
+  else if s = "start_time" then some (some .start)
+  else if s = "bogus" then some none
+  else none
+
+def parseMask? (s : String) : Option (Option Mask) :=
+  if s = "nil" then some none
+  else if s = "p:" then some (some ⟨[], false⟩)
+  else if s.startsWith "p:" then do
+    let fs ← ((s.drop 2).toString.splitOn ",").mapM parseField?
+    pure (some ⟨fs.filterMap id, fs.any Option.isNone⟩)
+  else none
+
+def parseOp? : List String → Option Op
+  | ["create", m, c] => do pure (.create (← parseMode? m) (← parseCands? c))
+  | ["add", m] => do pure (.add (← parseMode? m))
+  | ["update", m, k] => do pure (.update (← parseMode? m) (← parseMask? k))
+  | ["delete", i, a] => do pure (.delete (← parseId? i) (← parseBool? a))
+  | ["setactive", m] => do pure (.setActive (← parseMode? m))
+  | ["change", i, t] => do pure (.changeActive (← parseId? i) (← parseNat? t))
+  | ["clear", t] => do pure (.clear (← parseNat? t))
+  | ["s.create", m, c] => do pure (.sCreate (← parseMode? m) (← parseCands? c))
+  | ["s.update", m, k] => do pure (.sUpdate (← parseMode? m) (← parseMask? k))
+  | ["s.delete", i, a] => do pure (.sDelete (← parseId? i) (← parseBool? a))
+  | ["s.change", i, t] => do pure (.sChangeActive (← parseId? i) (← parseNat? t))
+  | ["s.clear", t] => do pure (.sClear (← parseNat? t))
+  | _ => none
+
+def showRes : Res → String
+  | .ok none => "OK"
+  | .ok (some m) => "OK=" ++ showMode m
+  | .err c => "err:" ++ c.name
+  | .panic => "panic"
+
+def showSt (s : St) : String :=
+  s!"modes=[{";".intercalate (s.modes.map showMode)}] active={showMode s.active} normal={match normalMode s with | none => "-" | some m => showMode m} changed={if s.changed then "1" else "0"}"
+
+def handleS (s : St) (toks : List String) : St × String :=
+  match toks with
+  | ["reset"] => (St.init, "ok")
+  | _ =>
+    match parseOp? toks with
+    | some op =>
+      let (s', r) := step s op
+      (s', showRes r ++ " " ++ showSt s')
+    | none => (s, "!bad-op")
 
 end ScVerif.C19
